@@ -264,6 +264,14 @@ func runSyncOnce(c *chains, w []string) (out string, fails []corr.Fail) {
 		}
 	}
 	targetH := int(target.Header.Height)
+	if c.prm.Rc {
+		// recent chains: the sync line carries the age of the requester's finalized block in slots
+		bs := c.p.BlockSlot()
+		age := bs.GetSlotNumber(uint32(time.Now().Unix())) - bs.GetSlotNumber(c.qBlocks[c.facts.finQ].Header.Timestamp)
+		if v, ok := kvInt(w, "age"); !ok || v != age {
+			return fmt.Sprintf("param-mismatch age=%d", age), nil
+		}
+	}
 	if b.badExec >= 0 {
 		// the reset/sync lines carry the finalized height of the applicable part of the served chain
 		if v, ok := kvInt(w, "finpeak"); !ok || b.badExec-1 >= len(c.finP) || uint32(v) != c.finP[b.badExec-1] {
@@ -389,6 +397,22 @@ func runSyncOnce(c *chains, w []string) (out string, fails []corr.Fail) {
 	out = fmt.Sprintf("mode=%s err=%d tip=%s h=%d ban=%d temp=%d", mode, errFlag, c.token(tip.ID, extraTok), tip.Height, banFlag, len(temp))
 
 	// ---- model-free oracle ----
+	// the synchroniser Syncer.Sync has to choose (refMode: signed arithmetic, LIP-0014): the real decision
+	// above is only what gets printed and compared with the model
+	omode := b.force
+	if omode == "" {
+		genIn := false
+		for _, v := range vals {
+			genIn = genIn || bytes.Equal(v, target.Header.GeneratorAddress)
+		}
+		bs := q.BlockSlot()
+		curSlot, finSlot := int64(bs.GetSlotNumber(uint32(time.Now().Unix()))), int64(bs.GetSlotNumber(finHeader.Timestamp))
+		omode = refMode(int64(len(before)-1), int64(targetH), len(vals), genIn, curSlot, finSlot)
+		if mode != omode {
+			fails = append(fails, fail("c19-sync-method-wrong", "own tip %d, announced block %d, %d validators (generator active: %v), finalized block %d slots old: Syncer.Sync chooses %q, specified %q",
+				len(before)-1, targetH, len(vals), genIn, curSlot-finSlot, mode, omode))
+		}
+	}
 	same := func(a, b [][]byte) bool {
 		if len(a) != len(b) {
 			return false
@@ -427,15 +451,15 @@ func runSyncOnce(c *chains, w []string) (out string, fails []corr.Fail) {
 		// (for block sync: and one of the at most 3 x 9 sampled heights of the common block search, or its
 		// last resort the finalized block, is in the common part - refCommonHeight)
 		reach := c.prm.F >= int(finBefore)
-		if mode == "fast" {
+		if omode == "fast" {
 			reach = reach && c.prm.Q-c.prm.F <= 2*n-2 && targetH-c.prm.F <= 2*n
 		} else {
 			reach = reach && refCommonHeight(c.prm.Q, int(finBefore), n, c.prm.F) >= 0
 		}
-		if mode != "none" && reach {
+		if omode != "none" && reach {
 			if !same(after, pIDs) || syncErr != nil {
 				fails = append(fails, fail("c19-not-converged", "honest peer (tip %d) announced its block %d, fork height %d >= finalized %d, own tip %d, round length %d: %s sync ended at height %d (tip %s) err=%v instead of on the peer's chain up to the announced block",
-					c.prm.P, targetH, c.prm.F, finBefore, c.prm.Q, n, mode, tip.Height, c.token(tip.ID, extraTok), syncErr))
+					c.prm.P, targetH, c.prm.F, finBefore, c.prm.Q, n, omode, tip.Height, c.token(tip.ID, extraTok), syncErr))
 			}
 			if banned {
 				fails = append(fails, fail("c19-honest-peer-banned", "the honest peer was banned"))
@@ -444,7 +468,7 @@ func runSyncOnce(c *chains, w []string) (out string, fails []corr.Fail) {
 				fails = append(fails, fail("c19-temp-blocks-left", "%d temp blocks left after a successful synchronisation", len(temp)))
 			}
 		}
-		if mode == "fast" && c.prm.F < int(finBefore) && c.prm.Q-c.prm.F <= 2*n-2 {
+		if omode == "fast" && c.prm.F < int(finBefore) && c.prm.Q-c.prm.F <= 2*n-2 {
 			// common block below the finalized height: refused, chain untouched, peer banned
 			if !same(after, before) || syncErr == nil {
 				fails = append(fails, fail("c19-below-finalized-accepted", "common block %d below finalized %d was not refused", c.prm.F, finBefore))
@@ -453,7 +477,7 @@ func runSyncOnce(c *chains, w []string) (out string, fails []corr.Fail) {
 				fails = append(fails, fail("c19-bad-peer-not-banned", "peer offering a common block below the finalized height was not banned"))
 			}
 		}
-	case mode == "fast":
+	case omode == "fast":
 		// every failure of fast sync leaves (or restores) the original chain
 		// (unless the applied part of the peer's chain finalized a block above the common block)
 		if syncErr != nil && !same(after, before) && int(q.Finalized()) <= c.prm.F {
